@@ -1062,7 +1062,10 @@ def run(ctx):
     cap = bool(apps) and hs is not None
     for a_ in apps:
         cv = consistent_values(g, a_, [0, 1, (hs or 1) - 1, hs or 1, (hs or 1) + 1, 10 * (hs or 1), 2 ** 31], key=lambda v: v.strip().path() or v.strip().src())
-        al = cv.get('G:smtptext.len')
+        tgt = a_.args[0].strip() if a_.args and a_.args[0] is not None else None
+        while tgt is not None and tgt.k in ('un', 'cast') and tgt.args:
+            tgt = tgt.args[0].strip()
+        al = cv.get((tgt.path() if tgt is not None and tgt.path() else 'G:smtptext') + '.len')
         cap = cap and al is not None and max(al or [0]) < hs
     r5.check(cap, 'smtp-reply-text-capped', 'qmail-remote.c:get', 'the reply text kept for the report must stop growing at HUGESMTPTEXT=%s' % hs)
     r5.expect_min(3)
